@@ -31,6 +31,7 @@
 #include "draco/compression/bit_coders/rans_bit_encoder.h"
 #include "draco/compression/entropy/symbol_encoding.h"
 #include "draco/compression/point_cloud/algorithms/dynamic_integer_points_kd_tree_encoder.h"
+#include "draco/compression/point_cloud/algorithms/float_points_tree_encoder.h"
 #include "draco/core/varint_encoding.h"
 #include "draco/core/verif_hooks.h"
 using namespace draco;
@@ -116,8 +117,10 @@ static std::vector<char> apply(const std::vector<char> &b, const Fault &f, const
 }
 static std::string fdesc(const Fault &f) { return std::to_string(f.kind) + ":" + std::to_string(f.off) + ":" + std::to_string(f.a) + ":" + std::to_string(f.b); }
 
+static bool g_identity_only = false;   // model rows: probe every stream as it is
 static std::vector<Fault> enumerate(const std::vector<char> &b, int level, uint64_t seed, size_t index, size_t ncorpus) {
   std::vector<Fault> fs;
+  if (g_identity_only) { fs.push_back({8, 0, 0, 0}); return fs; }
   const long L = (long)b.size();
   vrt::Rng r(seed ^ (index * 7919));
   // thorough: every offset of every stream up to 6000 bytes; the four big legacy files (37..121 KB) at about 4000 evenly spread offsets each
@@ -224,15 +227,33 @@ static void on_terminate() {
 
 static std::vector<char> slurp(const std::string &p) { std::ifstream f(p, std::ios::binary); return std::vector<char>((std::istreambuf_iterator<char>(f)), std::istreambuf_iterator<char>()); }
 
+static std::vector<char> assemble_eb(const vrt::J &row, int natt);
+static std::vector<char> assemble_kd(const vrt::J &row, bool *enc_same);
 static int run_sweep(const std::string &dir, int shard, int nshards, int level, uint64_t seed) {
   std::vector<std::string> names;
-  {
+  std::vector<std::vector<char>> all;
+  if (dir.size() > 7 && dir.substr(dir.size() - 7) == ".ndjson") {
+    // a file of model rows instead of a corpus directory: every row's assembled stream (this shard's rows only), probed as it is -- the allocation
+    // accounting of the plain build over the streams the models generate
+    g_identity_only = true;
+    std::ifstream rf(dir);
+    std::string line;
+    long i = 0;
+    while (std::getline(rf, line)) {
+      if (line.empty()) continue;
+      if ((i++ % nshards) != shard) continue;
+      const vrt::J row = vrt::jparse_line(line);
+      if (row["npd"].n > 1000) continue;
+      names.push_back("model-row:" + std::to_string(i - 1));
+      all.push_back(row["mode"].s == "kd" ? assemble_kd(row, nullptr) : assemble_eb(row, 1));
+    }
+    shard = 0; nshards = 1;
+  } else {
     std::ifstream idx(dir + "/index.ndjson");
     std::string line;
     while (std::getline(idx, line)) if (!line.empty()) names.push_back(vrt::jparse_line(line)["file"].s);
+    for (auto &n : names) all.push_back(slurp(dir + "/" + n));
   }
-  std::vector<std::vector<char>> all;
-  for (auto &n : names) all.push_back(slurp(dir + "/" + n));
   g_sh = (Shared *)mmap(nullptr, sizeof(Shared), PROT_READ | PROT_WRITE, MAP_SHARED | MAP_ANONYMOUS, -1, 0);
   verif::DeclareSink() = on_declare;
   std::set_terminate(on_terminate);
@@ -364,6 +385,27 @@ static std::vector<char> assemble_lkd(const vrt::J &row) {
   b.Encode((uint8_t)1);
   EncodeVarint<uint32_t>(1, &b);
   b.Encode((uint8_t)0); b.Encode((uint8_t)6); b.Encode((uint8_t)3); b.Encode((uint8_t)0); EncodeVarint<uint32_t>(0, &b);
+  if (row["mode"].s == "lkq") {
+    // the float method: POSITION float32 x 3 | u8 0 | u8 level | u32 op | FloatPointsTreeEncoder output over n points: u32 3, i8 method, u32 bits, f32 range,
+    // u32 fp, u32 level, then the integer kd-tree payload (u32 bit length, u32 ip, four bit streams)
+    std::vector<char> hd(b.data(), b.data() + b.size());
+    hd[hd.size() - 4] = 9;          // data type of the one attribute: DT_FLOAT32
+    EncoderBuffer q;
+    q.Encode(hd.data(), hd.size());
+    q.Encode((uint8_t)0);
+    q.Encode((uint8_t)level);
+    q.Encode(neg ? (uint32_t)0x80000000u : (uint32_t)(row["hop"].n ? (1u << 27) : (uint32_t)op));
+    std::vector<Point3f> fpts;
+    for (long i = 0; i < n; ++i) fpts.push_back(Point3f((float)((37 * i + 5) % 100) * 0.25f, (float)((911 * i + 3) % 100) - 50.f, (float)((i * i * 17 + 1) % 10)));
+    FloatPointsTreeEncoder fe(KDTREE, 8, (uint32_t)std::min<long>(level, 6));
+    fe.EncodePointCloud(fpts.begin(), fpts.end());
+    std::vector<char> tree(fe.buffer()->data(), fe.buffer()->data() + fe.buffer()->size());
+    const uint32_t fpv = row["hfp"].n ? (1u << 27) : (uint32_t)row["fp"].n, lv = (uint32_t)level, ipv = row["hip"].n ? (1u << 27) : (uint32_t)ip;
+    if (tree.size() >= 21) { memcpy(&tree[13], &fpv, 4); memcpy(&tree[17], &lv, 4); }
+    if (tree.size() >= 29) memcpy(&tree[25], &ipv, 4);
+    q.Encode(tree.data(), tree.size());
+    return std::vector<char>(q.data(), q.data() + q.size());
+  }
   b.Encode((uint8_t)1);
   b.Encode((uint8_t)level);
   b.Encode(neg ? (uint32_t)0x80000000u : (uint32_t)(row["hop"].n ? (1u << 27) : (uint32_t)op));
@@ -380,9 +422,67 @@ static std::vector<char> assemble_lkd(const vrt::J &row) {
   return out_bytes;
 }
 
-static std::vector<char> assemble_eb(const vrt::J &row, int natt = 1) {
+// kd-tree rows (row.mode = "kd", module KdTree): a bitstream-2.3 cloud with one GENERIC uint32 attribute of D components,
+//   "DRACO" 2 3 | type 0 | method 1 | flags 0 | i32 hp | u8 1 decoder | varint 1 attribute: type 4, uint32 (6), D, 0, varint id 0 | u8 level |
+//   u32 bit length B | u32 n | numbers | remaining bits | axes | halves -- the four request lists of the row, written with the coder classes the level selects
+template <int L>
+static void kd_streams(const vrt::J &row, EncoderBuffer *b) {
+  typedef DynamicIntegerPointsKdTreeEncoderCompressionPolicy<L> Policy;
+  typename Policy::NumbersEncoder numbers;
+  typename Policy::RemainingBitsEncoder remaining;
+  typename Policy::AxisEncoder axes;
+  typename Policy::HalfEncoder halves;
+  numbers.StartEncoding(); remaining.StartEncoding(); axes.StartEncoding(); halves.StartEncoding();
+  for (auto &q : row["nq"].a) numbers.EncodeLeastSignificantBits32((int)q[0].n, (uint32_t)q[1].n);
+  for (auto &q : row["rq"].a) remaining.EncodeLeastSignificantBits32((int)q[0].n, (uint32_t)q[1].n);
+  for (auto &q : row["aq"].a) axes.EncodeLeastSignificantBits32(4, (uint32_t)q.n);
+  for (auto &q : row["hq"].a) halves.EncodeBit(q.n != 0);
+  numbers.EndEncoding(b); remaining.EndEncoding(b); axes.EndEncoding(b); halves.EndEncoding(b);
+}
+template <int L>
+static void kd_real(std::vector<std::vector<uint32_t>> pts, int D, uint32_t B, EncoderBuffer *b) {
+  DynamicIntegerPointsKdTreeEncoder<L> enc((uint32_t)D);
+  enc.EncodePoints(pts.begin(), pts.end(), B, b);
+}
+#define KD_LEVEL_SWITCH(level, CALL) switch (level) { case 0: CALL(0); break; case 1: CALL(1); break; case 2: CALL(2); break; case 3: CALL(3); break; \
+                                                       case 4: CALL(4); break; case 5: CALL(5); break; default: CALL(6); break; }
+static std::vector<char> assemble_kd(const vrt::J &row, bool *enc_same) {
+  EncoderBuffer b;
+  b.Encode("DRACO", 5);
+  b.Encode((uint8_t)2); b.Encode((uint8_t)3); b.Encode((uint8_t)0); b.Encode((uint8_t)1); b.Encode((uint16_t)0);
+  const int D = (int)row["D"].n, level = (int)row["level"].n;
+  const uint32_t B = (uint32_t)row["B"].n, n = (uint32_t)row["n"].n;
+  b.Encode((int32_t)row["hp"].n);
+  b.Encode((uint8_t)1);
+  EncodeVarint<uint32_t>(1, &b);
+  b.Encode((uint8_t)4); b.Encode((uint8_t)6); b.Encode((uint8_t)D); b.Encode((uint8_t)0); EncodeVarint<uint32_t>(0, &b);
+  b.Encode((uint8_t)level);
+  const size_t at = b.size();
+  b.Encode(B); b.Encode(n);
+  if (n > 0) {
+#define KD_CALL(L) kd_streams<L>(row, &b)
+    KD_LEVEL_SWITCH(level, KD_CALL)
+#undef KD_CALL
+  }
+  if (enc_same) {
+    *enc_same = true;
+    if (!row["in"].a.empty()) {
+      // the honest rows: the library's encoder over the row's points must write the very bytes assembled from the model's request lists
+      std::vector<std::vector<uint32_t>> pts;
+      for (auto &p : row["in"].a) { std::vector<uint32_t> v; for (auto &x : p.a) v.push_back((uint32_t)x.n); pts.push_back(v); }
+      EncoderBuffer rb;
+#define KD_CALL(L) kd_real<L>(pts, D, B, &rb)
+      KD_LEVEL_SWITCH(level, KD_CALL)
+#undef KD_CALL
+      *enc_same = rb.size() == b.size() - at && memcmp(rb.data(), b.data() + at, rb.size()) == 0;
+    }
+  }
+  return std::vector<char>(b.data(), b.data() + b.size());
+}
+
+static std::vector<char> assemble_eb(const vrt::J &row, int natt) {
   if (row["mode"].s == "seq") return assemble_seq(row, natt);
-  if (row["mode"].s == "lkd") return assemble_lkd(row);
+  if (row["mode"].s == "lkd" || row["mode"].s == "lkq") return assemble_lkd(row);
   EncoderBuffer b;
   b.Encode("DRACO", 5);
   b.Encode((uint8_t)2); b.Encode((uint8_t)2); b.Encode((uint8_t)1); b.Encode((uint8_t)1); b.Encode((uint16_t)0);
@@ -444,14 +544,46 @@ static std::vector<char> assemble_eb(const vrt::J &row, int natt = 1) {
 }
 
 struct EbStats { long n, agree_rej, emitted; };
+// decoded / predicted points of a kd row as [[c0, c1, ..], ..] (first attribute, at most 200 points)
+static std::string kd_points(const PointCloud &pc) {
+  std::string j = "[";
+  if (pc.num_attributes() > 0) {
+    const PointAttribute *att = pc.attribute(0);
+    for (PointIndex p(0); p < std::min<uint32_t>(pc.num_points(), 200); ++p) {
+      uint32_t v[16] = {0};
+      const int nc = std::min<int>(16, att->num_components());
+      if (att->mapped_index(p).value() < att->size()) att->ConvertValue<uint32_t>(att->mapped_index(p), nc, v);
+      if (p.value()) j += ",";
+      j += "[";
+      for (int c = 0; c < nc; ++c) { if (c) j += ","; j += std::to_string(v[c]); }
+      j += "]";
+    }
+  }
+  return j + "]";
+}
+static std::string kd_pred(const vrt::J &row) {
+  std::string j = "[";
+  size_t k = 0;
+  for (auto &p : row["pts"].a) {
+    if (k == 200) break;
+    if (k++) j += ",";
+    j += "[";
+    for (size_t c = 0; c < p.a.size(); ++c) { if (c) j += ","; j += std::to_string(p.a[c].n); }
+    j += "]";
+  }
+  return j + "]";
+}
+
 static void probe_eb(const vrt::J &row, long index, EbStats *st) {
   const std::string &pred = row["out"].s;
   // every row twice: with the position attribute (natt = 1) and without any attribute decoder (natt = 0); the header-only rows and the valence
   // rows that the oracle skipped are probed once
   for (int natt = 1; natt >= 0; --natt) {
-    if (natt == 0 && row["mode"].s == "lkd") continue;  // the legacy kd-tree rows have one form only
+    const bool kd = row["mode"].s == "kd";
+    if (natt == 0 && (row["mode"].s == "lkd" || row["mode"].s == "lkq" || kd)) continue;  // the kd-tree rows have one form only
     if (natt == 1 && row["npd"].n > 1000) continue;     // index-width rows: the declared point count is the subject, not 25 MB of attribute storage
-    const std::vector<char> bytes = assemble_eb(row, natt);
+    bool enc_same = true;
+    const std::vector<char> bytes = kd ? assemble_kd(row, &enc_same) : assemble_eb(row, natt);
     std::vector<char> buf(bytes);
     const uint64_t h0 = vrt::fnv1a(buf.data(), buf.size());
     Decoded d;
@@ -462,13 +594,14 @@ static void probe_eb(const vrt::J &row, long index, EbStats *st) {
     } catch (const std::bad_alloc &) { tolerated_bad_alloc = true; } catch (const std::length_error &) { tolerated_bad_alloc = true; }
     const bool modified = vrt::fnv1a(buf.data(), buf.size()) != h0;
     st->n++;
-    if (!d.ok && !modified && !tolerated_bad_alloc && pred.compare(0, 4, "rej:") == 0) { st->agree_rej++; continue; }
+    if (!d.ok && !modified && !tolerated_bad_alloc && enc_same && pred.compare(0, 4, "rej:") == 0) { st->agree_rej++; continue; }
     st->emitted++;
     std::vector<int> faces;
     if (d.ok && d.is_mesh) faces = faces_of(*d.mesh());
     out.begin("EbProbe").i("row", index).s("mode", row["mode"].s.empty() ? "std" : row["mode"].s).i("natt", natt).s("s", row["s"].s).i("nv", row["nv"].n).i("nf", row["nf"].n).i("nss", row["nss"].n)
         .s("pred", pred).s("pk", pred.substr(0, pred.find(':'))).i("pred_np", row["np"].n)
         .arr("pred_faces", row["faces"].ints()).b("ok", d.ok).b("modified", modified).b("bad_alloc", tolerated_bad_alloc)
+        .b("enc_same", enc_same).raw("pts", kd && d.ok ? kd_points(*d.pc) : "[]").raw("pred_pts", kd ? kd_pred(row) : "[]")
         .i("np", d.ok ? (long long)d.pc->num_points() : 0).arr("faces", faces).raw("sv", d.ok ? struct_json(*d.pc, d.is_mesh) : "{\"np\":0,\"nf\":0,\"maxface\":-1,\"atts\":[]}").end();
     fflush(out.f);
   }
@@ -525,7 +658,7 @@ static int run_hostile(const std::string &rowsfile, int shard, int nshards) {
     const std::string report = first_report(errpath, &oom);
     if (timeout) ++timeouts; else if (!oom) ++crashes;
     const vrt::J row = vrt::jparse_line(lines[at]);
-    out.begin("Abnormal").b("oom", oom).s("report", report).s("stream", "model:" + row["s"].s).s("fault", lines[at]).i("len", (long long)assemble_eb(row).size()).b("timeout", timeout)
+    out.begin("Abnormal").b("oom", oom).s("report", report).s("stream", "model:" + row["s"].s).s("fault", lines[at]).i("len", (long long)(row["mode"].s == "kd" ? assemble_kd(row, nullptr) : assemble_eb(row, 1)).size()).b("timeout", timeout)
         .i("signal", WIFSIGNALED(stt) ? WTERMSIG(stt) : 0).i("exit", WIFEXITED(stt) ? WEXITSTATUS(stt) : -1).s("pred", row["out"].s).end();
     st->n++;
     start = at + 1;
